@@ -99,6 +99,12 @@ func ParseBalance(bal string) (uint64, error) {
 		whole = w
 	}
 	if len(fracStr) > int(consts.Decimals) {
+		// digits beyond the token's precision are dropped, anything else is an error
+		for _, c := range []byte(fracStr[consts.Decimals:]) {
+			if c < '0' || c > '9' {
+				return 0, &strconv.NumError{Func: "ParseBalance", Num: bal, Err: strconv.ErrSyntax}
+			}
+		}
 		fracStr = fracStr[:consts.Decimals]
 	}
 	frac := uint64(0)
